@@ -328,7 +328,7 @@ var c14Patterns = []string{
 	// literals that look like numbers
 	"0", "1", "10", "16", "00", "0.0", "1.0", "1e1", "0e0", "0x10", "0x0", "-1", "+1", "+0", ".5", ".0", "1.", "1e", "0X10",
 	// globs
-	"al*", "*", "?lpha", "[a-f]*", "[0-9]*", "[0-9].*", "[1-9]", "*.c", "0x0.?", "1e?", "*[0-9]", "[ab]lpha", "0x[0-9].", "0x[0-9].[0-9]",
+	"al*", "*", "?lpha", "[a-f]*", "[0-9]*", "[0-9].*", "[1-9]", "*.c", "0x0.?", "1e?", "*[0-9]", "[ab]lpha", "0x[0-9].", "0x[0-9].[0-9]", "[0-9]e[0-9]", "[0-9].[0-9]",
 	// yes/no classes and near misses
 	"[yY][eE][sS]", "[Yy][Ee][Ss]", "[nN][oO]", "[Nn][Oo]", "[yY][eE][s]", "[yY]", "[yY][eE][sS]*", "[yY][Ee][sS]", "[yy][eE][sS]",
 	// empty
@@ -882,6 +882,12 @@ func c14Random(rng *Rng, n int) []c14Spec {
 			Pick(rng, []string{"", "", "tl", "U"}), k.tag, cb.def, cb.prefs, 0}
 		if s.Tag == "NT" {
 			s.Def = "U"
+		}
+		if s.Shape == "quoted" && strings.ContainsAny(s.Pat, "<=>") {
+			// the replacement lands inside the quotes (known finding C14/*/quoted-term); with an
+			// operator byte in the literal the resulting line is a syntax error of a kind the
+			// reference reader does not classify, so these patterns keep the plain shape
+			s.Shape = "plain"
 		}
 		out = append(out, s)
 	}
